@@ -58,6 +58,7 @@ func runC12(w *World, c *Check) {
 	c.Rule("C12.krberror", "a KRB-ERROR from a KDC is returned as that KRBError", 4)
 	c.Rule("C12.loop", "dialSendUDP/TCP try every configured server: failures continue, only success returns inside the loop, bounded by len(kdcs), deadline before send", 12)
 	c.Rule("C12.framing", "TCP request = 4-byte big-endian length ‖ request; reply buffer sized from the 4-byte big-endian header", 4)
+	c.Rule("C12.every-kdc", "the list the send loops walk holds every configured server once: randServOrder draws among those that remain and removes exactly the drawn one", 5)
 	c.Rule("C12.bounded", "no recursion through sendToKDC; sends per call are bounded by the two transports × configured servers", 1)
 
 	fn := w.Func("client.(*Client).sendToKDC")
@@ -515,6 +516,7 @@ func runC12(w *World, c *Check) {
 		}
 	}
 	c.Decide(!rec, "C12.bounded", fk, "no-recursion", where, "sendToKDC is not reachable from itself: at most one pass over each transport per call", "sendToKDC can reach itself through the call graph")
+	ruleDrawRemove(w, c, "C12.every-kdc")
 }
 
 func isNilConst(v ssa.Value) bool {
